@@ -83,9 +83,14 @@ CHECKS = {
   "Every name of the live universe (everything bound in the bare / StandardSetup / unsandboxed interpreters, the bindings of the real zygo -sandbox binary, macros, the special forms parsed out of GenerateCallBySymbol, reserved words, repl commands) x 8 derivation routes (direct, alias, eval of a quoted form, str2sym+eval, apply, macro body, infix builder, closure body) x 16 argument shapes x {bare sandbox, sandbox+StandardSetup, cmd/zygo -sandbox}, plus seeded grammar-generated programs, executed in worker subprocesses / on the real binary in a throw-away directory with file, path, shell-marker, environment and exit canaries (inotify); TLC validates every recorded probe against SandboxTrace (event set empty), enumerates the vectors, model-checks the derivation closure (NoMinting, DeadStaysDead) over the live universe; an unsandboxed control must show every capability of every known primitive through every route.",
   "only canary effects are watched (no network/clock/stdout); crashes (Go panics) are C01's, not exit events; existence probing is not counted as a read; cmd macros assumed equal to std",
   "TLA+ spec (Sandbox); TLC exploration of the derivation closure over the dumped universe + vector generation + TLC trace validation of subprocess probes; control/sensitivity check"),
+ "C13": ("ParseSession", "model_checking",
+  "ParseSession.tla is a lexical-mode/bracket automaton over character classes that defines Unfinished(text) and a session machine (feed, reset-and-load, abandon) with 12 histories; TLC model-checks it over all texts/cuts up to the bound. Every text over the 20-class alphabet up to length 3 (and structured longer ones) x every single cut and pair of cuts x histories, every tests/*.zy file with seeded cuts, and seeded random texts/multi-cuts are fed piecewise to the real parser; TLC validates the status after every piece (more-input exactly on unfinished prefixes), piecewise = whole (reference parsed by a fresh parser), history independence and that the last token is never lost.",
+  "expressions are compared relationally (pieces vs whole text on a fresh parser); a Go panic escaping the parser is C01's (recorded, not judged here); cuts after a complete prefix are judged as two texts",
+  "TLA+ spec (ParseSession); TLC model checking of the automaton + TLC trace validation of piecewise deliveries"),
 }
 
 ENGINES = [
+ {"name": "ParseSession", "path": "spec/ParseSession.tla spec/MCParseSession.tla spec/ParseTrace.tla", "serves_properties": ["C13"], "kind_free_text": "TLA+ lexical automaton + session state machine + trace specification, TLC"},
  {"name": "Sandbox", "path": "spec/Sandbox.tla spec/MCSandbox.tla spec/SandboxTrace.tla", "serves_properties": ["C08"], "kind_free_text": "TLA+ capability/derivation model over the live universe + trace specification, TLC"},
  {"name": "GoInterop", "path": "spec/GoInterop.tla spec/MCGoInterop.tla spec/GoInteropTrace.tla", "serves_properties": ["C10"], "kind_free_text": "TLA+ functional spec over a Go type algebra + trace specification, TLC"},
  {"name": "Pratt", "path": "spec/Pratt.tla spec/MCPratt.tla spec/MCPrattForms.tla spec/PrattTrace.tla", "serves_properties": ["C06"], "kind_free_text": "TLA+ declarative grammar + algorithm model + trace specification, TLC"},
